@@ -98,6 +98,12 @@ def programs(tier: str):
                         }
 
 
+    # the decorator's defaults: limit (1), catching (Exception), no delay - bare and called forms
+    for mode in ("sync", "async"):
+        for catching in ("default", "class"):
+            for delay in ("none", "float"):
+                yield {"limit": 1, "catching": catching, "delay": delay, "mode": mode, "scoped": False, "limit_default": True}
+        yield {"limit": 1, "catching": "default", "delay": "none", "mode": mode, "scoped": False, "limit_default": True, "bare": True}
     yield from _reuse_programs(tier)
     # two overlapping calls through one async wrapper: each has its own attempt budget
     for limit in BOUNDS[tier]["limits"][:2]:
@@ -350,6 +356,8 @@ def execute(program, ch: Chooser) -> Result:  # noqa: C901, PLR0912, PLR0915
         return 0.25 * attempt
 
     kwargs: dict = {"limit": limit}
+    if program.get("limit_default"):
+        kwargs = {}  # the decorator's own default: one retry
     if catching == "class":
         kwargs["catching"] = Caught
     elif catching == "tuple":
@@ -387,9 +395,10 @@ def execute(program, ch: Chooser) -> Result:  # noqa: C901, PLR0912, PLR0915
     try:
         if mode == "sync":
 
-            @retry(**kwargs)
             def fn(*a, **k):
                 return decide(a, k)
+
+            fn = retry(fn) if program.get("bare") else retry(**kwargs)(fn)
 
             def run_sync():
                 try:
@@ -404,9 +413,10 @@ def execute(program, ch: Chooser) -> Result:  # noqa: C901, PLR0912, PLR0915
                 run_sync()
         else:
 
-            @retry(**kwargs)
             async def afn(*a, **k):
                 return decide(a, k)
+
+            afn = retry(afn) if program.get("bare") else retry(**kwargs)(afn)
 
             async def main():
                 try:
